@@ -101,6 +101,15 @@ pub fn gen_history(r: &mut Rng, o: &HistOpts) -> Ceremony {
         for _ in 0..n_ops {
             let rp = *r.pick(&rps);
             let eff = rp_effective(rp);
+            // at CTAP level the RP ID is whatever string the platform sends: now and then another spelling of a
+            // known one (upper case, trailing dot) - to the authenticator and to a store that is a different RP
+            let respelled: String;
+            let eff = if r.chance(1, 10) && eff.is_ascii() {
+                respelled = if r.bool() { eff.to_ascii_uppercase() } else { format!("{eff}.") };
+                respelled.as_str()
+            } else {
+                eff
+            };
             let mut w = r.below(wsum);
             let mut which = 0;
             for (i, x) in o.weights.iter().enumerate() {
